@@ -19,7 +19,8 @@ EXPLANATION = (
     "and is drained only on the path that ends the program; (R6) every instruction the generator "
     "emits carries a position that derives from the construct being lowered; (R7) argument errors of "
     "user SUB / FUNCTION calls are positioned at the call; (R8) the row table counts a CR LF as one line end "
-    "wherever the LF exists (the guard of the look-ahead is not stronger than `in range`; shared with C09.R13); (R9) error_envelope only moves positions; (R10) the conversions of a file or string into the input view hand the text over verbatim - no line-splitting or trimming std call on the way, which would merge or drop line ends before rows are counted.")
+    "wherever the LF exists (the guard of the look-ahead is not stronger than `in range`; shared with C09.R13); (R9) error_envelope only moves positions; (R10) the conversions of a file or string into the input view hand the text over verbatim - no line-splitting or trimming std call on the way, which would merge or drop line ends before rows are counted."
+    " (R11) no and_then mapper that can make a ParserError of its own is applied to a seq3..seq6 parser: an error made up after a whole multi-part construct was consumed is reported behind it.")
 NOT_DECIDED = ["that row/column numbers are correct for arbitrary layouts and line endings (value-level)"]
 
 
@@ -432,6 +433,68 @@ def r10_program_text_is_read_verbatim(ctx, rule="C11.R10"):
     ctx.require(rule, 2)
 
 
+def _makes_parser_error(prog, f, depth=1):
+    for blk in f.body.blocks:
+        if blk.get("c"):
+            continue
+        for st in blk["s"]:
+            r = st.get("r", {})
+            if st["k"] == "assign" and r.get("k") == "agg" and r.get("a") == "adt" and r["adt"].endswith("ParserError"):
+                return True
+    for _b, t in f.body.calls():
+        cp = mir.callee_path(t)
+        if "ParserError" in cp and cp.split("::")[-1] in ("syntax_error", "expected"):
+            return True
+        g = prog.fns.get(t.get("res") or mir.callee_of(t))
+        if depth and g is not None and g.crate == "rusty_parser" and g.body is not None and g.kind != "closure" \
+                and _makes_parser_error(prog, g, depth - 1):
+            return True
+    return False
+
+
+def r11_errors_of_a_mapper_are_raised_where_the_text_is(ctx, rule="C11.R11"):
+    """A syntax error is reported at the position the reader has when the error is raised.  A mapper given to
+    `and_then` runs after its parser has consumed all of its input, so an error the mapper makes up is reported
+    behind that input.  That is the right place for a token or a short run of tokens on one line (a literal out
+    of range, an identifier with a dot) and the wrong place for a whole multi-part construct: the library's
+    `seqN` combinators (N >= 3 parts) are what the grammar builds statements and blocks from, and a mapper on one
+    of them that rejects the construct reports `END SELECT` for a misplaced `CASE ELSE` five lines above.  No
+    and_then whose mapper can make a ParserError of its own is applied to a seq3 .. seq6 parser."""
+    prog = ctx.prog
+    n = n_err = 0
+    for f in sorted(prog.fns.values(), key=lambda f: f.id):
+        if f.crate != "rusty_parser" or f.body is None:
+            continue
+        pv = None
+        for _b, t in f.body.calls():
+            cp = mir.callee_path(t)
+            if cp.split("::")[-1] != "and_then" or "Parser" not in cp or len(t["args"]) < 2:
+                continue
+            n += 1
+            pv = pv or mir.Prov(f.body)
+            so = mir.strip_all(pv.of_operand(t["args"][1]))
+            cid = so[2] if so[0] == "agg" and so[1] == "closure" else (so[1] if so[0] == "fn" else None)
+            g = prog.fns.get(cid) if cid else None
+            if g is None or not _makes_parser_error(prog, g):
+                continue
+            n_err += 1
+            pl = mir.op_place(t["args"][0])
+            ty = f.body.locals[pl[0]]["ty"] if pl is not None else ""
+            head = ty.split("<")[0]
+            m = re.match(r"^rusty_pc::seq::Seq([3-9])$", head)
+            name = f.path.split("::", 1)[1]
+            k = sum(1 for x in ctx.obs if x.key.startswith("%s:%s" % (rule, name)))
+            ctx.decide(m is None, rule, "%s:%s%s" % (rule, name, "#%d" % k if k else ""), "%s:%s" % (f.file, t.get("ln")),
+                       "the mapper that can reject runs on %s" % head.split("::")[-1],
+                       "%s rejects a whole %s-part construct from an and_then mapper: the error is raised after the last part "
+                       "was consumed and is reported there (at END SELECT for a CASE ELSE that is not the last block), not at "
+                       "the offending text" % (name, m.group(1) if m else "?"))
+    ctx.analysed_units(rule, and_then_sites=n, with_a_rejecting_mapper=n_err)
+    if n_err < 5:
+        raise CheckError("%s: only %d and_then mappers that make an error were found (the detector is blind)" % (rule, n_err))
+    ctx.require(rule, 5)
+
+
 def run(ctx):
     common.install(ctx)
     r1_with_pos(ctx)
@@ -444,3 +507,4 @@ def run(ctx):
     c09.r13_lookahead_guard_is_tight(ctx, "C11.R8")
     r9_trace_is_moved_unchanged(ctx)
     r10_program_text_is_read_verbatim(ctx)
+    r11_errors_of_a_mapper_are_raised_where_the_text_is(ctx)
